@@ -11,17 +11,19 @@
    of call t; `Conforms` (mismatch = <<>>) is the invariant, mismatching calls are also
    emitted (tid + first failing clause) so that the harness can name every one of them.
 
-   The verdict is computed in INTEGER arithmetic in units of 1/U, U = lcm(1..n) * lcm of
-   the denominators of P, N0/(Es g_i) and N0/g_i.
-   LEMMA: the optimal powers and water level are integer multiples of 1/U
-   (mu = (P + SUM_{i in S} N0/(Es g_i)) / |S| for the active set S).  A recorded value whose
-   denominator does not divide U therefore cannot be right (clause "den"), and for all others
-   the KKT conditions are integer equations - no overflow, whatever the implementation returned.
+   The verdict is computed in INTEGER arithmetic in units of 1/U, U = |S| * lcm of the
+   denominators of P, N0/(Es g_i) and N0/g_i, where S is the set of channels with a positive
+   recorded power (vectors of any length: the harness also records vectors of 20..100 channels).
+   LEMMA: if the recorded result is right, S is the active set and
+   mu = (P + SUM_{i in S} N0/(Es g_i)) / |S|, so level and powers are integer multiples of 1/U.
+   A recorded value whose denominator does not divide U therefore cannot be right (clause
+   "den"), and for all others the KKT conditions are integer equations - no overflow, whatever
+   the implementation returned.
 
    Clauses, in this order:  raised, shape, inexact, den, nonneg, sum, kkt(i).  When only the
    water level fails KKT and  mu - N0/g_best + N0/(Es g_best)  does satisfy it, the clause is
    "MuIgnoresEs" (signature of the known defect).                                             *)
-EXTENDS Integers, Sequences, TLC, Json, IOUtils, Rat, Emit
+EXTENDS Integers, Sequences, FiniteSets, TLC, Json, IOUtils, Rat, Emit
 
 Traces == JsonDeserialize(IOEnv.TRACE_FILE)
 
@@ -46,9 +48,11 @@ Verdict(t) ==
       Es  == Q(t.es)
       B   == [i \in 1..n |-> RDiv(N0, RMul(Es, g[i]))]        \* N0/(Es g_i)
       B1  == [i \in 1..n |-> RDiv(N0, g[i])]                  \* N0/g_i (defect signature only)
-      U   == LcmUpTo(n) * Lcm(P[2], Lcm(LcmDen(B), LcmDen(B1)))
+      pw0 == [i \in 1..n |-> Q(t.pw[i])]
+      nS  == Cardinality({i \in 1..n : pw0[i][1] > 0})                 \* size of the recorded active set
+      U   == (IF nS = 0 THEN 1 ELSE nS) * Lcm(P[2], Lcm(LcmDen(B), LcmDen(B1)))
       S(q) == q[1] * (U \div q[2])                            \* q in units of 1/U (q[2] divides U)
-      pw  == [i \in 1..n |-> Q(t.pw[i])]
+      pw  == pw0
       mu  == Q(t.mu)
       best == CHOOSE i \in 1..n : \A j \in 1..n : ~RLt(g[i], g[j])
       Pos(x) == IF x > 0 THEN x ELSE 0
